@@ -38,8 +38,13 @@ def cases(tier, seed):
         c = GC.rand_circuit(rng, nq=rng.randint(2, 5), ngates=rng.randint(1, 8), pool=pool, p_classical=0.5)
         nq = c["nq"]
         ren = []
+        style = rng.random()
         for q in rng.sample(range(nq), rng.randint(1, nq)):
-            ren.append(["rename", q, f"n{q}_{rng.randint(0, 9)}"])
+            if style < 0.3:
+                # names of the default form q<k> sitting at another index than k (arguments called q0, q1, ...)
+                ren.append(["rename", q, f"q{(q + rng.randint(1, nq)) % (nq + 1)}"])
+            else:
+                ren.append(["rename", q, f"n{q}_{rng.randint(0, 9)}"])
         for _ in range(rng.randint(0, 2)):
             ren.append(["alias", rng.randrange(nq), f"al{rng.randint(0, 99)}"])
         rng.shuffle(ren)
